@@ -14,6 +14,8 @@
 #include <iostream>
 #include <map>
 #include <memory>
+#include <cstdint>
+#include <cstdio>
 #include <new>
 #include <stdexcept>
 #include <sstream>
@@ -67,8 +69,12 @@ struct HarnessExcRuntime : std::runtime_error, HarnessExc
 {
   HarnessExcRuntime() : std::runtime_error("harness") {}
 };
+// what the harness-only variations did (printed to stderr by the sequential driver; evidence only)
+static thread_local long g_stat_throws[3] = {0, 0, 0};
+static thread_local long g_stat_unwind_emits = 0;
 [[noreturn]] inline void throw_harness_exc(long salt)
 {
+  ++g_stat_throws[salt % 3];
   switch (salt % 3)
   {
     case 0:
@@ -113,6 +119,41 @@ struct FV // void-result twin
   explicit FV(int fid) : f(fid) {}
   void operator()(int a) const
   {
+    int fid = f.fid;
+    invoke_leaf(fid, a);
+  }
+};
+
+// over-aligned twins (functor ids with fid % 4 == 3 in `fn:` specs): a slot must store, copy and call a functor
+// type with an extended alignment requirement at a suitably aligned address
+inline void check_aligned(const void* p, std::size_t al)
+{
+  if (reinterpret_cast<std::uintptr_t>(p) % al != 0)
+  {
+    std::fprintf(stderr, "harness: functor object at %p is not %zu-byte aligned\n", p, al);
+    std::abort();
+  }
+}
+struct FAl
+{
+  alignas(64) F f;
+  explicit FAl(int fid) : f(fid) { check_aligned(this, 64); }
+  FAl(const FAl& o) : f(o.f) { check_aligned(this, 64); }
+  int operator()(int a) const
+  {
+    check_aligned(this, 64);
+    int fid = f.fid;
+    return invoke_leaf(fid, a);
+  }
+};
+struct FAlV
+{
+  alignas(64) F f;
+  explicit FAlV(int fid) : f(fid) { check_aligned(this, 64); }
+  FAlV(const FAlV& o) : f(o.f) { check_aligned(this, 64); }
+  void operator()(int a) const
+  {
+    check_aligned(this, 64);
     int fid = f.fid;
     invoke_leaf(fid, a);
   }
@@ -239,6 +280,36 @@ struct FOwnKV
   F f;
   std::shared_ptr<sigc::scoped_connection> k;
   FOwnKV(int fid, std::shared_ptr<sigc::scoped_connection> k_) : f(fid), k(std::move(k_)) {}
+  void operator()(int a) const
+  {
+    int fid = f.fid;
+    invoke_leaf(fid, a);
+  }
+};
+
+// a functor owning a signal object (a handle of a slot list — possibly of the very list the functor's slot is in)
+struct OwnedSig
+{
+  void* sigobj;                 // SigObj*
+  void (*deleter)(void*);       // deletes the signal object and its SigObj record
+  ~OwnedSig() { deleter(sigobj); }
+};
+struct FOwnG
+{
+  F f;
+  std::shared_ptr<OwnedSig> g;
+  FOwnG(int fid, std::shared_ptr<OwnedSig> g_) : f(fid), g(std::move(g_)) {}
+  int operator()(int a) const
+  {
+    int fid = f.fid;
+    return invoke_leaf(fid, a);
+  }
+};
+struct FOwnGV
+{
+  F f;
+  std::shared_ptr<OwnedSig> g;
+  FOwnGV(int fid, std::shared_ptr<OwnedSig> g_) : f(fid), g(std::move(g_)) {}
   void operator()(int a) const
   {
     int fid = f.fid;
@@ -510,6 +581,10 @@ bool fl_trackable(Flavour f)
 {
   return f == FTV_ || f == FTI_ || f == FTA_ || f == FTAV_;
 }
+bool fl_acc(Flavour f)
+{
+  return f == FA_ || f == FTA_ || f == FAV_ || f == FTAV_;
+}
 
 struct SigObj
 {
@@ -517,6 +592,9 @@ struct SigObj
   void* p; // one of the six types
   bool everFwd = false;
   int lvl = 0; // forwarding level (recursion guard of the op language)
+  bool owned = false; // a functor family owns the object (ownG); the name is only an alias
+  int name = -1;
+  std::weak_ptr<OwnedSig> owner;
 };
 
 struct SlotObj
@@ -603,7 +681,7 @@ struct Interp
   }
 
   // ---- functor spec -> slot --------------------------------------------------------------
-  // returns: 0 ok, 1 dead, 2 badtype
+  // returns: 0 ok, 1 dead, 2 badtype, 3 pinned
   template<typename R>
   int make_slot(const std::string& spec, sigc::slot<R(int)>& dst)
   {
@@ -621,6 +699,14 @@ struct Interp
     if (k == "fn" && p.size() == 2)
     {
       int fid = std::atoi(p[1].c_str());
+      if (fid % 4 == 3)
+      {
+        if constexpr (isV)
+          dst = SlotV(FAlV(fid));
+        else
+          dst = SlotI(FAl(fid));
+        return 0;
+      }
       if constexpr (isV)
         dst = SlotV(FV(fid));
       else
@@ -733,6 +819,39 @@ struct Interp
         dst = SlotI(FOwnK(fid, sp));
       return 0;
     }
+    if (k == "ownG" && p.size() == 3)
+    {
+      int fid = std::atoi(p[1].c_str());
+      int gi = idx(p[2]);
+      SigObj* g = get(G, gi);
+      if (!g)
+        return 1;
+      if (g->everFwd && !fl_trackable(g->fl))
+        return 3;
+      if (g->owned)
+        return 4;
+      // the functor copies own the signal object now; the name stays as an alias until the object dies
+      g->owned = true;
+      g->name = gi;
+      std::shared_ptr<OwnedSig> sp(new OwnedSig{g, [](void* q) {
+                                                 SigObj* so = static_cast<SigObj*>(q);
+                                                 Interp* in = g_interp;
+                                                 auto it = in->G.find(so->name);
+                                                 if (it != in->G.end() && it->second == so)
+                                                   in->G.erase(it);
+                                                 with_sig(*so, [](auto& sg) {
+                                                   delete &sg;
+                                                   return 0;
+                                                 });
+                                                 delete so;
+                                               }});
+      g->owner = sp;
+      if constexpr (isV)
+        dst = SlotV(FOwnGV(fid, sp));
+      else
+        dst = SlotI(FOwnG(fid, sp));
+      return 0;
+    }
     if (k == "nest" && p.size() == 2)
     {
       SlotObj* s = get(S, idx(p[1]));
@@ -760,6 +879,8 @@ struct Interp
         return 1;
       if (fl_void(g->fl) != isV)
         return 2;
+      if (!fl_trackable(g->fl) && g->owned)
+        return 4; // the forwarder would dangle when the owning functors die
       g->everFwd = true;
       if constexpr (isV)
       {
@@ -811,7 +932,7 @@ struct Interp
     return -1;
   }
 
-  static const char* rc_name(int rc) { return rc == 0 ? "ok" : rc == 1 ? "dead" : "badtype"; }
+  static const char* rc_name(int rc) { return rc == 0 ? "ok" : rc == 1 ? "dead" : rc == 3 ? "pinned" : rc == 4 ? "owned" : "badtype"; }
 
   static bool parse_flavour(const std::string& s, Flavour& f)
   {
@@ -870,6 +991,14 @@ struct Interp
     return g;
   }
 
+  void clear_sig(SigObj* g)
+  {
+    with_sig(*g, [](auto& s) {
+      s.clear();
+      return 0;
+    });
+  }
+
   void del_sig(SigObj* g)
   {
     with_sig(*g, [](auto& s) {
@@ -899,7 +1028,7 @@ struct Interp
 
     // ---------------- the mode rule of the language (docs/LANGUAGE.md)
     {
-      auto is_owner_spec = [](const std::string& sp) { return sp.rfind("ownT:", 0) == 0 || sp.rfind("ownK:", 0) == 0; };
+      auto is_owner_spec = [](const std::string& sp) { return sp.rfind("ownT:", 0) == 0 || sp.rfind("ownK:", 0) == 0 || sp.rfind("ownG:", 0) == 0; };
       if ((op == "conn" || op == "connf" || op == "connmv" || op == "connfmv") && N(3) && owners)
       {
         SlotObj* sl = get(S, idx(w[3]));
@@ -1208,6 +1337,9 @@ struct Interp
         return "badtype";
       if (dst->lvl != src->lvl)
         return "badlevel";
+      // move assignment may assume that both objects outlive the call (docs/LANGUAGE.md, rule `owned`)
+      if (op == "masgG" && !fl_acc(dst->fl) && (src->owned || (fl_trackable(dst->fl) && dst->owned)))
+        return "owned";
       bool cp = (op == "asgG");
       with_sig(*dst, [cp, src](auto& d) {
         using Ty = std::remove_reference_t<decltype(d)>;
@@ -1228,6 +1360,8 @@ struct Interp
         return "dead";
       if (g->everFwd && !fl_trackable(g->fl))
         return "pinned";
+      if (g->owned)
+        return "owned";
       G.erase(i);
       del_sig(g);
       return "ok";
@@ -1267,6 +1401,7 @@ struct Interp
       bool first = (op == "connffn");
       int rc = 0;
       int st = spec_taint(w[3]);
+
       sigc::connection c;
       if (w[3].rfind("sc:", 0) == 0 && !first)
       {
@@ -1784,6 +1919,7 @@ struct Interp
           try
           {
             Guard g{this, l, false, &inner_exc};
+            ++g_stat_unwind_emits;
             throw_harness_exc(steps + 1);
           }
           catch (HarnessExc&)
@@ -1820,14 +1956,30 @@ struct Interp
       delete kv.second;
     }
     S.clear();
-    for (auto& kv : G)
-      with_sig(*kv.second, [](auto& s) {
-        s.clear();
-        return 0;
-      });
-    for (auto& kv : G)
-      del_sig(kv.second);
-    G.clear();
+    {
+      // (clearing one signal may destroy functor-owned signal objects, which then leave G)
+      std::vector<int> names;
+      for (auto& kv : G)
+        names.push_back(kv.first);
+      for (int n : names)
+        if (SigObj* g = get(G, n))
+        {
+          auto keep = g->owner.lock(); // the harness's own teardown must not destroy the object it is calling
+          clear_sig(g);
+        }
+      names.clear();
+      for (auto& kv : G)
+        names.push_back(kv.first);
+      for (int n : names)
+        if (SigObj* g = get(G, n))
+        {
+          if (g->owned)
+            continue; // cannot happen after the clears above: every functor is gone
+          G.erase(n);
+          del_sig(g);
+        }
+      G.clear();
+    }
     for (auto& kv : T)
       delete kv.second;
     T.clear();
@@ -1958,6 +2110,8 @@ int main(int argc, char** argv)
       std::cout << in.out;
       std::cout.flush();
     }
+    std::cerr << "#harness-stats throws_plain=" << g_stat_throws[0] << " throws_bad_alloc=" << g_stat_throws[1]
+              << " throws_runtime_error=" << g_stat_throws[2] << " emissions_during_unwinding=" << g_stat_unwind_emits << "\n";
     return 0;
   }
   // C19: every program in its own thread, started behind a barrier, disjoint object graphs
